@@ -27,7 +27,8 @@ CONSTANTS Keys,       \* key names
           Counting,   \* BOOLEAN: counting cuckoo filter
           Cap0s, Autos,
           MaxCap, MaxDepth, MaxOut, MaxReloads,
-          NPARTS, PART
+          NPARTS, PART,
+          Queries     \* BOOLEAN: look-ups are operations of the history (used with ViewH)
 
 VARIABLES cap, tbl, n, uniq, out, alt, auto, c0, rl, hist, last
 vars == <<cap, tbl, n, uniq, out, alt, auto, c0, rl, hist, last>>
@@ -119,7 +120,7 @@ StepSet(st, a, o) ==
   CASE o[1] = "add" -> AddSet(st, a, o[2])
     [] o[1] = "rem" -> RemSet(st, o[2])
     [] o[1] = "exp" -> ExpSet(st)
-    [] o[1] = "rt" -> {[st |-> st, err |-> FALSE, ch |-> <<>>, ret |-> 0]}     \* export + load: identity on the table
+    [] o[1] \in {"rt", "chk"} -> {[st |-> st, err |-> FALSE, ch |-> <<>>, ret |-> 0]}     \* export + load, and a look-up: identity on the table
 
 (* the history oracle: outstanding additions per fingerprint, from the operations and their outcome only *)
 OutStep(ou, o, err, ret) ==
@@ -129,6 +130,8 @@ OutStep(ou, o, err, ret) ==
          [] OTHER -> ou
 
 Ops == {<<"add", k>> : k \in Keys} \cup {<<"rem", k>> : k \in Keys} \cup {<<"exp", "">>} \cup {<<"rt", "bytes">>, <<"rt", "file">>}
+       \cup (IF Queries THEN {<<"chk", k>> : k \in Keys} ELSE {})
+          \* a look-up as an ACTION that changes nothing (C19), part of the history under ViewH: the code may keep state across it
 
 -----------------------------------------------------------------------------
 RECURSIVE TableNo(_, _)
@@ -157,6 +160,7 @@ Do(o) == /\ (o[1] = "rt" => rl < MaxReloads)
 Next == \E o \in Ops : Do(o)
 Spec == Init /\ [][Next]_vars
 View == <<cap, tbl, n, uniq, out, alt, auto, rl>>
+ViewH == <<cap, tbl, n, uniq, out, alt, auto, rl, hist>>      \* enumerate histories incl. their random choices (see CountMin.tla)
 Bound == cap <= MaxCap /\ Len(hist) <= MaxDepth /\ \A f \in FPs : out[f] <= MaxOut
 
 -----------------------------------------------------------------------------
